@@ -6,7 +6,7 @@ From Coq Require Import String.
 From Coq Require Import List Bool Arith NArith ZArith.
 Import ListNotations.
 Require Import Str Rx RxFacts AsModel G_as_num TextModel TextProofs.
-Require PyLib G_fn_sir RefAs.
+Require PyLib G_fn_sir RefAs G_fn_sir2 RefJun RefSub RefAsLine.
 
 (* TIE A (function level): the Gallina function GENERATED on this run from AsNumberAnonymizer._generate_as_number_replacement returns, for every
    salt Python can encode and every numeral in range, the decimal text of a number of the same block *)
@@ -19,4 +19,14 @@ Theorem C11_generated_replacement_function_preserves_the_block :
             /\ (0 <= r <= 4294967295)%Z /\ AsModel.block r = AsModel.block (Z.of_N n).
 Proof. exact RefAs.gen_as_replacement_preserves_block. Qed.
 
+(* anonymize_as_numbers translated from the source (pattern.sub with the callback anonymizer.anonymize(match.group(0)), get_as_number_pattern,
+   the dictionary look-up) returns the model's anonymize_as_line: every match of the anonymizer's pattern replaced by its entry in the
+   replacement map, all other text copied.  The pattern's finditer and group(0) are served by RefSub.sub_call over the regex engine. *)
+Theorem C11_generated_anonymize_as_numbers_is_the_model :
+  forall (rx_of : PyLib.pyval -> option re) (cls : list Z) (saltv rh : PyLib.pyval) (fuel : nat) (a : as_anonymizer) (line l : str),
+  rx_of rh = Some (as_regex a) -> anonymize_as_line a line = Done l ->
+  G_fn_sir2.gen_anonymize_as_numbers (RefSub.sub_call rx_of) fuel (RefAsLine.enc_as cls saltv rh a) (RefJun.vstr line) = PyLib.Normal (RefJun.vstr l).
+Proof. exact RefAsLine.gen_anonymize_as_numbers_refines. Qed.
+
 Print Assumptions C11_generated_replacement_function_preserves_the_block.
+Print Assumptions C11_generated_anonymize_as_numbers_is_the_model.
